@@ -101,8 +101,6 @@ def has_surrogate(evs):
 
 def script_line(cid, enc, ver, evs):
     parts = [cid, enc, ver]
-    if has_surrogate(evs):
-        parts.append("-L")   # legacy serializer not run: known finding K-new-4 (exception or unbounded allocation)
     for e in evs:
         if e[0] == "S":
             parts += ["S", tok(e[1]), str(len(e[2]))]
@@ -185,8 +183,7 @@ def classify(enc, ver, evs):
         for kind, s in strs:
             cps = code_points(s)
             if cps is None:
-                rep = False
-                cls.add("K7")
+                rep = False     # an unpaired surrogate: the serializer must raise an error
                 continue
             for cp in cps:
                 if not xml_char(v11, cp):
@@ -196,18 +193,11 @@ def classify(enc, ver, evs):
                     # no escaping mechanism: the character itself must be writable
                     if not enc_can(enc, cp):
                         rep = False
-                        if kind != "name":
-                            cls.add("K4")
                     if restricted(v11, cp):
                         rep = False
                     if kind != "name" and eol_sensitive(v11, cp):
                         rep = False
                         cls.add("K-new-1")
-                elif kind == "cdata":
-                    if eol_sensitive(v11, cp):
-                        cls.add("K-new-1")
-                    if restricted(v11, cp):
-                        cls.add("K-new-2")
     return rep, cls
 
 
@@ -467,14 +457,10 @@ def evaluate(ctx, cases, impl, model):
                 corr.append({"case": line, "impl": new[:80], "model": "no result"})
             elif rm.startswith("ok "):
                 mb = model_bytes(enc, untok(rm[3:]))
-                if "K7" in kcls and enc in ("ISO-8859-1", "US-ASCII"):
-                    pass   # a lone surrogate handed to the Xerces transcoder: outside the model (known finding K7)
-                elif mb is None or not new.startswith("ok:") or bytes.fromhex(new[3:]) != mb:
+                if mb is None or not new.startswith("ok:") or bytes.fromhex(new[3:]) != mb:
                     corr.append({"case": line, "impl": new[:160], "model": "ok:" + (mb.hex()[:160] if mb is not None else "(units above 0xFF)")})
             elif rm.startswith("err "):
-                if "K7" in kcls and enc in ("ISO-8859-1", "US-ASCII"):
-                    pass
-                elif not new.startswith("err:") or ERRMAP.get(rm[4:].strip()) != new[4:]:
+                if not new.startswith("err:") or ERRMAP.get(rm[4:].strip()) != new[4:]:
                     corr.append({"case": line, "impl": new[:160], "model": rm})
             else:
                 corr.append({"case": line, "impl": new[:160], "model": rm})
@@ -489,7 +475,7 @@ def evaluate(ctx, cases, impl, model):
             elif newp != expected:
                 what = "output parses to a different tree:\n#     parsed   %s\n#     expected %s" % (newp[:400], expected[:400])
             if what:
-                for k in ("K-new-1", "K-new-2"):
+                for k in ("K-new-1",):
                     if k in kcls:
                         known = k
         else:
@@ -501,7 +487,7 @@ def evaluate(ctx, cases, impl, model):
                 else:
                     what = None   # the oracle's notion of representable was too strict for this input; nothing wrong observed
                 if what:
-                    for k in ("K7", "K4", "K-new-1"):
+                    for k in ("K-new-1",):
                         if k in kcls:
                             known = k
         if what:
@@ -529,8 +515,13 @@ def legacy_class(enc, ver, evs):
                     allu += an + av
             elif isinstance(x, list):
                 allu += x
+    if any(is_high(u) or is_low(u) for u in allu):
+        return "K-new-4"
     if v11 and any(u in (0x85, 0x2028) or restricted(True, u) for u in allu):
         return "K-new-3"
+    for e in evs:
+        if e[0] == "C" and 13 in e[1]:
+            return "K-new-7"
     if not v11:
         for e in evs:
             if e[0] == "T" and any(u in (13, 0x85, 0x2028) for u in e[1]):
@@ -546,6 +537,7 @@ def legacy_class(enc, ver, evs):
 def run(ctx):
     ctx.assumptions += [
         "strings contain no U+0000 (SAX names/comments/PI data are NUL-terminated C strings; CharFunctor::range asserts theChar > 0)",
+        "CR (1.1: NEL, LSEP) inside a comment or PI cannot be represented in XML at all; the serializer writes it literally, as every XSLT processor does (XSLT 2.0 serialization prescribes escaping for text and attributes only): recorded as K-new-1, not an error",
         "comment data has no '--' and no trailing '-', PI data no '?>' and no leading white space, PI target is not 'xml' (guaranteed by ElemTemplateElement::childrenToResultComment/PI and the data model)",
         "names in scripts are XML Names with declared prefixes (C14 covers namespace fix-up)",
         "U+FFFE/U+FFFF are not generated (not Chars of either XML version, cannot come from a parsed document)",
